@@ -465,6 +465,25 @@ def gen_probe_history(r):
     return hist
 
 
+def gen_sparse_history(r):
+    """many nodes, most of them deleted again and none of the freed indices re-used: the survivors' indices are few
+    and far apart (0, 3, 9, 33 ...), with links among them"""
+    n = r.randint(10, 45)
+    hist = [["add_node", 0, r.choice([None, 1, 2]), {"k": k} if k % 7 == 0 else None] for k in range(n)]
+    keep = sorted(r.sample(range(1, n + 1), r.randint(2, 6)))
+    for a in keep:
+        for b in keep:
+            if a != b and r.random() < 0.4:
+                hist.append(["add_link", a, r.randrange(2), b, r.randrange(2)])
+    dead = [h for h in range(1, n + 1) if h not in keep]
+    r.shuffle(dead)
+    hist += [["delete_node", h] for h in dead]
+    if r.random() < 0.5:
+        hist.append(["probe"])
+        hist.append(["add_order_link", keep[0], keep[-1]])
+    return hist
+
+
 def gen_history_on(r, n_existing, max_steps=20, metadata=True):
     """history whose steps also address the n_existing nodes a HUGR already has"""
     hist = gen_history(r, max_steps=max_steps, max_nodes=8, metadata=metadata)
